@@ -25,6 +25,9 @@ pub enum AOp {
     /// a `data.tmp` left behind by a compaction that was interrupted between its copy and its
     /// rename: a copy of the newest data file as it is now
     StaleTmp,
+    /// manager `m` reads the newest object the OTHER manager wrote (a range behind what `m`
+    /// mapped when it opened the archive): the read may fail, it changes nothing on disk
+    ReadOthers { m: u8 },
 }
 
 #[derive(Debug, Clone, Serialize, Deserialize)]
@@ -39,7 +42,7 @@ pub fn strategy() -> BoxedStrategy<ACase> {
     let len = prop_oneof![4 => 0u32..2000, 3 => 2000u32..200_000, 2 => 400_000u32..1_600_000];
     // manager 0 only compacts (a manager that appends after another handle did would overwrite the
     // other's bytes: two writers on one archive are outside what the code supports)
-    let op = prop_oneof![6 => len.clone().prop_map(|len| AOp::Write { m: 1, len }), 3 => (0u8..2).prop_map(|m| AOp::Compact { m }), 2 => (0u8..2).prop_map(|m| AOp::Reopen { m }), 2 => prop_oneof![Just(1_200_000u32), 100u32..4_000_000].prop_map(|len| AOp::Slack { len }), 1 => Just(AOp::StaleTmp)];
+    let op = prop_oneof![6 => len.clone().prop_map(|len| AOp::Write { m: 1, len }), 3 => (0u8..2).prop_map(|m| AOp::Compact { m }), 2 => (0u8..2).prop_map(|m| AOp::Reopen { m }), 2 => prop_oneof![Just(1_200_000u32), 100u32..4_000_000].prop_map(|len| AOp::Slack { len }), 1 => Just(AOp::StaleTmp), 3 => (0u8..2).prop_map(|m| AOp::ReadOthers { m })];
     (proptest::collection::vec(len, 0..4), proptest::collection::vec(op, 1..8), any::<u64>()).prop_map(|(first, ops, seed)| ACase { first, ops, seed }).boxed()
 }
 
@@ -99,6 +102,7 @@ pub fn check(c: &ACase) -> Verdict {
     let (mut compacted_behind, mut appended) = (false, 0u64);
     let (mut reopened_behind, mut compacted_after_reopen) = (false, false);
     let (mut slack, mut stale_tmp, mut compacted) = (0u64, false, false);
+    let mut read_others = false;
     // the data files grew through another handle since manager m last looked at them (its own
     // write or open_all): its idea of their size is out of date, and so is what it can report
     let mut stale_view = [false, false];
@@ -127,6 +131,16 @@ pub fn check(c: &ACase) -> Verdict {
                         slack += u64::from(*len);
                         stale_view = [true, true];
                     }
+                }
+            }
+            AOp::ReadOthers { m } => {
+                let other = 1 - (*m).min(1);
+                if let Some(o) = objs.iter().rev().find(|o| o.by == other) {
+                    let got = if *m == 0 { m0.read_content(o.id, o.off, o.size) } else { m1.read_content(o.id, o.off, o.size) };
+                    read_others = true;
+                    // (the result is not judged: a manager whose view of the archive is out of date,
+                    // e.g. after the other one compacted it, may see anything there)
+                    let _ = got;
                 }
             }
             AOp::StaleTmp => {
@@ -202,6 +216,7 @@ pub fn check(c: &ACase) -> Verdict {
     Verdict::pass()
         .nontrivial(compacted_behind && !objs.is_empty())
         .class_if(compacted_behind, "compact-by-a-manager-that-did-not-see-the-appends")
+        .class_if(read_others, "read-of-an-object-the-other-manager-wrote")
         .class_if(slack > 0, "slack-appended-to-an-archive")
         .class_if(stale_tmp, "data.tmp-left-by-an-interrupted-compaction")
         .class_if(compacted, "an-archive-was-compacted")
